@@ -86,7 +86,7 @@ def gen(rng: random.Random, tier):
 
 def gen_cases(tier, seed):
     rng = random.Random(f"c19-{seed}")
-    n = 500 if tier == "quick" else 80000
+    n = 2000 if tier == "quick" else 80000
     cases = []
     for i in range(n):
         s = rng.getrandbits(32)
